@@ -43,8 +43,8 @@ def iter_consts(size, nt, mw, modes=EAGER, dev="{}", node_only=False, remote="{}
                 SendModes=modes, Deviations=dev)
 
 
-def create_consts(size, mw, nc, modes=EAGER, dev="{}"):
-    return dict(Size=size, MaxWorkers=mw, NC=nc, SendModes=modes, Deviations=dev)
+def create_consts(size, mw, nc, modes=EAGER, dev="{}", remote="{}"):
+    return dict(Size=size, MaxWorkers=mw, NC=nc, SendModes=modes, RemoteRanks=remote, Deviations=dev)
 
 
 # ---------------------------------------------------------------------------
@@ -86,6 +86,11 @@ def model_check(ctx):
         res = tlc.run("CreateMPI", cfg, coverage=True)
         ctx.add_tlc(f"CreateMPI ideal Size={size} max_workers={mw or None} chunks={nc} modes={modes}", res)
         ctx.require(res.ok, f"CreateMPI ideal design violated: {res.error_kind} {res.error_name}")
+    for size, mw, remote in ((4, 2, "{1, 3}"), (4, 0, "{1}"), (5, 3, "{1, 2}")):
+        cfg = tlc.make_cfg(constants=create_consts(size, mw, 2, BOTH, remote=remote), invariants=CREATE_INVS, properties=["Termination"])
+        res = tlc.run("CreateMPI", cfg)
+        ctx.add_tlc(f"CreateMPI ideal Size={size} max_workers={mw or None} ranks {remote} on another node", res)
+        ctx.require(res.ok, f"CreateMPI with remote ranks violated: {res.error_kind} {res.error_name}")
     cfg = tlc.make_cfg(constants=create_consts(3, 0, 2, EAGER, dev='{"SingleRootEOQ"}'), invariants=CREATE_INVS)
     res = tlc.run("CreateMPI", cfg)
     ctx.add_tlc("CreateMPI deviation SingleRootEOQ, eager sends", res)
@@ -512,20 +517,23 @@ def create_checks(ctx, cex, rng, root):
     oracle_create(ctx, out, n, "replay of TLC counterexample SingleRootEOQ, size=3, chunks=2", -1)
 
     # 2. random schedules: oracle + trace validation (ideal first, then as-implemented)
-    configs = [(3, 40, 20, None), (4, 60, 20, None), (2, 40, 20, None), (4, 45, 20, 3), (3, 7, 3, None)]
+    # (size, records, chunksize, max_workers, nodes): nodes = processor name per rank (None: all on one node)
+    configs = [(3, 40, 20, None, None), (4, 60, 20, None, None), (2, 40, 20, None, None), (4, 45, 20, 3, None), (3, 7, 3, None, None),
+               (4, 40, 20, 2, ["A", "B", "A", "B"]), (4, 40, 20, None, ["A", "B", "A", "A"])]
     if not quick:
-        configs += [(5, 60, 20, None), (4, 61, 20, None), (5, 50, 10, 4)]
+        configs += [(5, 60, 20, None, None), (4, 61, 20, None, None), (5, 50, 10, 4, None), (5, 60, 20, 3, ["A", "B", "B", "A", "A"])]
     nruns = 25 if quick else 120
     verdict_summary = {}
-    for size, n, chunksize, mw in configs:
+    for size, n, chunksize, mw, nodes in configs:
+        remote = "{" + ", ".join(str(r) for r in range(size) if nodes and nodes[r] != nodes[0]) + "}"
         df = create_frame(n, npatch, n)
         nc = -(-n // chunksize)
         traces, seeds = [], []
         for i in range(nruns):
             seed = rng.randrange(1 << 30)
             out = fakempi.run_world(size, create_program(str(root / f"c{size}"), df, centers, chunksize, mw, None), seed=seed,
-                                    send_modes=("eager", "sync"), argfn=create_argfn(chunksize))
-            oracle_create(ctx, out, n, f"size={size},n={n},chunksize={chunksize},max_workers={mw}", seed)
+                                    send_modes=("eager", "sync"), argfn=create_argfn(chunksize), nodes=nodes)
+            oracle_create(ctx, out, n, f"size={size},n={n},chunksize={chunksize},max_workers={mw},nodes={'interleaved' if nodes else 'one'}", seed)
             seg = spec_events(segment(out["log"], "write_patches"))
             if seg:
                 seg[0] = dict(seg[0], writer=writer_of(seg))
@@ -535,7 +543,7 @@ def create_checks(ctx, cex, rng, root):
             continue
         accepted_by = None
         for dev in ("{}", '{"SingleRootEOQ"}'):
-            consts = create_consts(size, mw or 0, nc, BOTH, dev)
+            consts = create_consts(size, mw or 0, nc, BOTH, dev, remote=remote)
             bad = [dict(e) for e in traces[0]]
             for e in bad:
                 if e["ev"] == "recv" and e.get("cls") == "Patches":
@@ -548,12 +556,12 @@ def create_checks(ctx, cex, rng, root):
             if nacc == len(traces):
                 accepted_by = dev
                 break
-            verdict_summary.setdefault(f"size={size},chunks={nc},mw={mw}", {})[dev] = dict(
+            verdict_summary.setdefault(f"size={size},chunks={nc},mw={mw},remote={remote}", {})[dev] = dict(
                 accepted=nacc, of=len(traces),
                 first_unmatched=next(({k: v for k, v in tr[m].items() if k in ("ev", "cls", "src", "dst", "tag", "wr", "kind")}
                                       for (m, ok), tr in zip(verdicts, traces) if not ok and m < len(tr)), None))
         ctx.validated(len(traces))
-        verdict_summary.setdefault(f"size={size},chunks={nc},mw={mw}", {})["explained_by"] = accepted_by
+        verdict_summary.setdefault(f"size={size},chunks={nc},mw={mw},remote={remote}", {})["explained_by"] = accepted_by
         if accepted_by is None:
             ctx.drift("C06|write_patches|traces_explained_by_neither_ideal_nor_as_implemented", dict(size=size, nc=nc, mw=mw))
         ctx.sample(dict(kind="write_patches trace", size=size, chunks=nc, max_workers=mw, events=len(traces[0]), explained_by_deviations=accepted_by))
@@ -607,6 +615,12 @@ def workload(rank, root, seed, mw, create_mw=None):
     cf.to_file(f"{root}/cf.hdf")
     back = yaw.CorrFunc.from_file(f"{root}/cf.hdf")
     out["roundtrip_equal"] = bool(back == cf)
+    cd = cf.sample()
+    cd.to_files(f"{root}/cd")
+    back_cd = yaw.CorrData.from_files(f"{root}/cd")
+    out["corrdata_roundtrip"] = [float(x) for x in back_cd.data]
+    h.to_files(f"{root}/hist")
+    out["hist_roundtrip"] = [float(x) for x in yaw.HistData.from_files(f"{root}/hist").data]
     config.to_file(f"{root}/cfg.yml")
     out["config_roundtrip"] = bool(yaw.Configuration.from_file(f"{root}/cfg.yml").to_dict() == config.to_dict())
     return out
